@@ -3,6 +3,7 @@ import SoxrModel.Cr.Wf
 import SoxrModel.Cr.Time
 import SoxrModel.Cr.Shift
 import SoxrModel.Cr.Cone
+import SoxrModel.Cr.CoefTable
 /-! Line-protocol driver for the constant-rate count model (`soxrmodel cr < ops`).  One op per line in, one canonical
     line out; the harness diffs these lines with what the real code printed. -/
 namespace Soxr.Cr.Driver
@@ -83,7 +84,28 @@ def rle : List Nat → String
 def delayBits (d : DSt) : UInt64 :=
   let e := d.api.eng
   let so : Float := if e.sout < 0 then -(Float.ofNat e.sout.natAbs) else Float.ofNat e.sout.natAbs
-  ((Float.ofNat e.sin) / d.ioRatio - so).toBits
+  -- the guard of `soxr_delay` (soxr.c): an object that carries an error reports 0
+  if d.api.error then (0.0 : Float).toBits else ((Float.ofNat e.sin) / d.ioRatio - so).toBits
+
+
+/-- `cr.coeftab simd ord nc P mult c0 c1 …`: the table of `prepare_poly_fir_coefs` for an integer prototype and multiplier, exact
+    rationals, every cell of the allocation times 12 (all cells are multiples of 1/12 for integer input) — once by the model of the
+    loop (`CoefTable.prep`), once by the closed form of the theorems (`CoefTable.spec`) -/
+def ratOps : CoefTable.Ops Rat :=
+  { zero := 0, add := (· + ·), sub := (· - ·), mul := (· * ·), half := (1 : Rat) / 2, sixth := (1 : Rat) / 6, four := 4 }
+
+def coefTabLine (toks : List String) : String :=
+  match toks.map (·.toInt?.getD 0) with
+  | simd :: ord :: nc :: P :: mult :: cs =>
+    let arr := cs.toArray
+    let p : CoefTable.Par Rat := { o := ratOps, coefs := fun k => ((arr.getD k 0 : Int) : Rat), mult := ((mult : Int) : Rat),
+                                   nc := nc.toNat, P := P.toNat, ord := ord.toNat, simd := simd != 0 }
+    let show12 (v : Rat) : String := let w := v * 12; if w.den == 1 then toString w.num else s!"{w.num}/{w.den}"
+    let tl := CoefTable.prep p
+    let a := (List.range p.length).map fun x => show12 (tl x)
+    let b := (List.range p.length).map fun x => show12 (CoefTable.spec p x)
+    s!"COEFTAB len={p.length} loop=" ++ ",".intercalate a ++ " spec=" ++ ",".intercalate b
+  | _ => "bad-op"
 
 def step (d : DSt) (line : String) : DSt × Option String :=
   let toks := (line.trimAscii.toString.splitOn " ").filter (· ≠ "")
@@ -152,6 +174,7 @@ def step (d : DSt) (line : String) : DSt × Option String :=
     | none => (d, some "R out-of-fuel")
     | some (a, odone, rest, reqs) =>
       ({ d with api := a }, some (s!"R id=0 od={odone} used={(parseScript script).length - rest.length} reqs={rle reqs} " ++ stateLine a))
+  | "cr.coeftab" :: rest => (d, some (coefTabLine rest))
   | [] => (d, none)
   | _ => (d, some "bad-op")
 
